@@ -200,6 +200,25 @@ func TestVerifC11(t *testing.T) {
 		}
 		o.Stat("keys_checked", 1)
 	}
+	// the CA position of the ACME key builders: keys built for one CA's directory URL live under
+	// THAT CA's prefix (issuer keys of the URLs from an independent table), whatever the issuer's
+	// own CA is — accounts and challenge tokens of a test/staging CA never land in production's
+	caTable := [][2]string{{"https://ca.example/dir", "ca.example-dir"}, {"https://staging.ca.example/directory", "staging.ca.example-directory"},
+		{"https://acme.other.example/v2/DV90", "acme.other.example-v2-DV90"}, {"https://ca.example/dir/", "ca.example-dir"}, {"https://ca.example", "ca.example"}}
+	for _, ca := range caTable {
+		nsCA := prefixACME + "/" + StorageKeys.Safe(ca[1])
+		if got := am.storageKeyCAPrefix(ca[0]); got != nsCA {
+			o.Mon("C11 key-outside-namespace builder=acmeCAPrefixOfURL", map[string]any{"ca": ca[0], "key": got, "ns": nsCA})
+		}
+		if got := am.storageKeyUsersPrefix(ca[0]); got != nsCA+"/users" {
+			o.Mon("C11 key-outside-namespace builder=acmeUsersPrefixOfURL", map[string]any{"ca": ca[0], "key": got, "ns": nsCA + "/users"})
+		}
+		for _, d := range reps {
+			for _, k := range []string{am.storageKeyUserPrefix(ca[0], d), am.storageKeyUserReg(ca[0], d), am.storageKeyUserPrivateKey(ca[0], d)} {
+				inNS("accountOfCA", k, nsCA+"/users", ca[0], d)
+			}
+		}
+	}
 	for _, i := range reps {
 		for _, d := range reps {
 			lm, sp := c11Tables(i, d)
